@@ -443,6 +443,116 @@ def same_lines(io, mo) -> bool:
     return parse_message(io[1]) == mo[1]
 
 
+
+# --------------------------------------------------------------------------
+# the three public graph queries: real code vs comprehension model (fn 11-13) vs worklist model (fn 31-33)
+
+
+def _real_queries(arch, ds, us):
+    """-> {'between': {((kind,name),(kind,name)): set(edges)}, 'out': {(kind,name): set}, 'in': {...}} or ('ERR', family) per query."""
+    from pytestarch.eval_structure.evaluable_architecture import ModuleNameFilter, ParentModuleNameFilter
+
+    def mk(f):
+        return ModuleNameFilter(name=f[1]) if f[0] == "named" else ParentModuleNameFilter(parent_module=f[1])
+
+    def key(m):
+        return ("named" if m.is_single_module else "sub", m.identifier)
+
+    def edges(l):
+        return frozenset((a.identifier, b.identifier) for a, b in l)
+    D, U = [mk(f) for f in ds], [mk(f) for f in us]
+    out = {}
+    for name, fn in (("between", lambda: {(key(k[0]), key(k[1])): edges(v) for k, v in arch.get_dependencies(D, U).items()}),
+                     ("out", lambda: {key(k): edges(v) for k, v in arch.any_dependencies_from_dependents_to_modules_other_than_dependent_upons(D, U).items()}),
+                     ("in", lambda: {key(k): edges(v) for k, v in arch.any_other_dependencies_on_dependent_upons_than_from_dependents(D, U).items()})):
+        try:
+            out[name] = fn()
+        except Exception as e:  # noqa: BLE001
+            out[name] = ("ERR", classify_exception(e))
+    return out
+
+
+def _dec_query(enc, m, pairs):
+    if m is None or m == SX_ERR:
+        return ("MODEL-ERR", "")
+    if m[0] == 2:
+        return ("ERR", "LookupError" if m[1] not in (0, 1) else "ConfigError")
+    out = {}
+    for k, l in m[1]:
+        kk = (enc.dec_filt(k[0]), enc.dec_filt(k[1])) if pairs else enc.dec_filt(k)
+        out[kk] = frozenset((enc.unname(a), enc.unname(b)) for a, b in l)
+    return out
+
+
+def eval_queries(cases):
+    """cases: dict(nodes, edges, ds, us, limit=None); ds/us lists of (kind, name).
+    Returns per case {'between'|'out'|'in': (real, comprehension_model, worklist_model)}."""
+    wire, encs, reals = [], [], []
+    for c in cases:
+        enc = Enc()
+        arch = make_arch_direct(c["nodes"], c["edges"], c.get("limit"))
+        g = enc.graph_built(c["nodes"], c["edges"], c.get("limit"))
+        # the library de-duplicates filter lists through set(): do the same for the model (order is irrelevant to the compared maps)
+        ds = list(dict.fromkeys(c["ds"]))
+        us = list(dict.fromkeys(c["us"]))
+        arg = [g, [enc.ufilt(k, n) for k, n in ds], [enc.ufilt(k, n) for k, n in us]]
+        reals.append(_real_queries(arch, ds, us))
+        for fn in (11, 12, 13, 31, 32, 33):
+            wire.append([fn, arg])
+        encs.append(enc)
+    res = common.model_run(wire)
+    out = []
+    for i, (c, enc, real) in enumerate(zip(cases, encs, reals)):
+        m = res[6 * i:6 * i + 6]
+        out.append({"between": (real["between"], _dec_query(enc, m[0], True), _dec_query(enc, m[3], True)),
+                    "out": (real["out"], _dec_query(enc, m[1], False), _dec_query(enc, m[4], False)),
+                    "in": (real["in"], _dec_query(enc, m[2], False), _dec_query(enc, m[5], False)),
+                    "pairs": list(zip(wire[6 * i:6 * i + 6], m))})
+    return out
+
+
+def query_outcomes_equal(a, b) -> bool:
+    if isinstance(a, tuple) or isinstance(b, tuple):
+        return isinstance(a, tuple) and isinstance(b, tuple) and a[0] == b[0] == "ERR" and not a[1].startswith("OtherError")
+    return a == b
+
+
+def check_query_cases(rng, n, pools=(COLLISION_FREE, ADVERSARIAL)):
+    """Random graphs (also level-limited) x random filter lists (related and unrelated, with unknown names now and then)."""
+    out = dict(n=0, nontrivial=0, stats={}, violations=[], disagreements=[], pairs=[], samples=[])
+    cases = []
+    for _ in range(n):
+        nodes = rand_tree(rng, rng.choice(pools), max_nodes=rng.choice([5, 8, 12]))
+        edges = rand_edges(rng, nodes, 10)
+        cand = [x for x in nodes if x != "r"] or nodes
+
+        def filters(k):
+            fs = [(rng.choice(["named", "sub"]), rng.choice(cand)) for _ in range(k)]
+            if rng.random() < 0.05:
+                fs.append(("named", "r.zz.unknown"))
+            return fs
+        limit = rng.choice([None, None, None, 1, 2])
+        if limit is not None:
+            keep = lambda x: ".".join(x.split(".")[:limit + 1])
+            cand = sorted({keep(x) for x in cand})
+        cases.append(dict(nodes=nodes, edges=edges, ds=filters(rng.randint(1, 3)), us=filters(rng.randint(1, 3)), limit=limit))
+    for c, r in zip(cases, eval_queries(cases)):
+        for q in ("between", "out", "in"):
+            real, comp, work = r[q]
+            out["n"] += 1
+            case = dict(nodes=c["nodes"], edges=c["edges"], dependents=c["ds"], dependent_upons=c["us"], level_limit=c["limit"], query=q,
+                        impl=str(real)[:400], comprehension_model=str(comp)[:400], worklist_model=str(work)[:400])
+            if not query_outcomes_equal(comp, work):
+                out["disagreements"].append((case, f"query {q}: worklist model and comprehension model differ (they are proved equal on well-formed graphs)"))
+            elif not query_outcomes_equal(real, work):
+                out["disagreements"].append((case, f"query {q}: implementation and model differ"))
+            elif isinstance(real, dict) and any(real.values()):
+                out["nontrivial"] += 1
+        if not out["pairs"]:
+            out["pairs"] = r["pairs"][:6]
+    out["stats"]["query_cases"] = n
+    return out
+
 # --------------------------------------------------------------------------
 # case streams
 
